@@ -1,6 +1,8 @@
 package props
 
 import (
+	"context"
+	"encoding/json"
 	"fmt"
 	"os"
 	"testing"
@@ -37,5 +39,42 @@ func TestDebugC11Rejects(t *testing.T) {
 	}
 	for k, v := range counts {
 		fmt.Println(v, k)
+	}
+}
+
+// TestDebugC29S prints what a shipped parser does on a C29 replay case (VERIF_DEBUG_FILE).
+func TestDebugC29S(t *testing.T) {
+	path := os.Getenv("VERIF_DEBUG_FILE")
+	if path == "" {
+		t.Skip()
+	}
+	data, _ := os.ReadFile(path)
+	var rf replayFile
+	var c c29sCase
+	json.Unmarshal(data, &rf)
+	json.Unmarshal(rf.Case, &c)
+	sp := shippedByName(c.Parser)
+	src := c.source()
+	ctx, cancel := context.WithCancel(context.Background())
+	cancel()
+	o := sp.parse(ctx, 0, src, 0, nil)
+	fmt.Printf("err=%v events=%d errors=%v\n", o.Err, len(o.Events), o.Errors)
+	for i, e := range o.Events {
+		if i < 40 || i > len(o.Events)-10 {
+			fmt.Printf("  %s [%d,%d)\n", e.Type, e.Off, e.End)
+		}
+	}
+}
+
+func TestDebugC29Units(t *testing.T) {
+	if os.Getenv("VERIF_DEBUG") == "" {
+		t.Skip()
+	}
+	for name, u := range c29Units {
+		sp := shippedByName(name)
+		for _, x := range u.units {
+			o := sp.parse(context.Background(), 0, u.head+x+u.tail, 0, nil)
+			fmt.Printf("%s %q err=%v handler=%v events=%d\n", name, x, o.Err, o.Errors, len(o.Events))
+		}
 	}
 }
